@@ -182,7 +182,16 @@ func (p *Packet) decodeIPv4Header() error {
 		Dst:      dst.String(),
 	}
 
-	p.data = p.data[IPv4HLen:]
+	// the transport header follows the IP options, if any: IHL counts 32-bit words
+	hLen := int(p.data[0]&0x0f) * 4
+	if hLen < IPv4HLen {
+		hLen = IPv4HLen
+	}
+	if len(p.data) < hLen {
+		return errShortIPv4HeaderLength
+	}
+
+	p.data = p.data[hLen:]
 
 	return nil
 }
